@@ -32,6 +32,10 @@ CLAIMED = {
             "Seeded search over fragmentations: a scripted sender splits each encoded message into 1-7 transfer frames at seeded offsets (uniform and biased into section headers, length fields, first/last bytes, empty frames), varies which optional fields continuation frames repeat, interleaves a delivery on a second link, aborts at seeded positions, and in one run out of five contradicts a continuation field. At simulator-proven quiescence after each non-final frame the application must have received nothing; after the final frame exactly one message, byte-equal after re-encoding; an aborted delivery yields nothing and the next one is intact; a contradiction must end in an error, never in a message. Client-side and listener-side receivers.",
             "Trusted: the simulator, refcodec, the crate's encoder as the source of the message bytes that are being fragmented.",
             "exactly-once byte-exact message at the last frame only, against a scripted fragmenting sender", "3 C10"),
+    "C12": ("exploration",
+            "Seeded search over local actions x peer behaviours x times: a real client connection and a real listener connection each face a scripted peer that opens at once, late or pipelined, closes with or without error at a seeded moment, sends frames that are illegal in the current state (begin with unknown remote-channel, end/attach on an unmapped channel, second open, a begin before the open), floods empty frames, goes silent, or cuts the stream, while the application closes, closes with error, drops the handle, begins and ends a session or just waits, with and without idle time-outs (heartbeats). The connection state machine is checked on the bytes the endpoint wrote - header first, open first and once, at most one close, nothing after it, peer close answered, illegal frame answered by a close that carries an error and not acted upon - and on the API results (clean close => Ok when the endpoint closed first / RemoteClosed when the peer did; peer's error reported).",
+            "Trusted: the simulator, refcodec. With a silent peer API calls may stay pending (no clause bounds them). The flush-before-close clause is exercised by C13's queued-frame workloads.",
+            "connection state machine reference model on the written bytes + API result model against a scripted peer", "3 C12"),
 }
 
 NOT_APPLICABLE = {
